@@ -243,13 +243,18 @@ func cloneSpec(s *RunSpec) *RunSpec {
 }
 
 // minimise shrinks the replay file while the same class of violation persists.
-// Order: earlier runs of the batch, schedule (none at all), tasks, operations, switch points.
+// Order: earlier runs of the batch; the schedule as a whole (no preemption);
+// whole tasks; switch points; operations (disabled in place, so the (op, yield)
+// addresses of the remaining switch points stay valid); switch points again;
+// compaction (drop disabled entries, renumber switch points); unreferenced objects.
 func minimise(b *Build, rf *ReplayFile, race bool, want map[string]bool, budget time.Duration, logf func(string, ...interface{})) *ReplayFile {
 	deadline := time.Now().Add(budget)
+	tries := 0
 	try := func(c *ReplayFile) bool {
 		if time.Now().After(deadline) {
 			return false
 		}
+		tries++
 		return sameFailure(execReplay(b, c, race), want, b.Scratch)
 	}
 	cur := rf
@@ -267,7 +272,6 @@ func minimise(b *Build, rf *ReplayFile, race bool, want map[string]bool, budget 
 			cur = &c
 			logf("minimise: earlier runs of the batch are not needed")
 		} else {
-			// drop them one at a time, keeping order
 			for i := 0; i < len(cur.Runs)-1; {
 				c := *cur
 				c.Runs = append(append([]*RunSpec(nil), cur.Runs[:i]...), cur.Runs[i+1:]...)
@@ -302,35 +306,11 @@ func minimise(b *Build, rf *ReplayFile, race bool, want map[string]bool, budget 
 			cur = c
 		}
 	}
-	// 4. operations (ddmin per task)
-	for t := 0; t < len(last(cur).Tasks); t++ {
-		n := len(last(cur).Tasks[t])
-		chunk := n / 2
-		for chunk >= 1 && time.Now().Before(deadline) {
-			removed := false
-			for start := 0; start < len(last(cur).Tasks[t]); {
-				prog := last(cur).Tasks[t]
-				end := start + chunk
-				if end > len(prog) {
-					end = len(prog)
-				}
-				s := cloneSpec(last(cur))
-				s.Tasks[t] = append(append([]Op(nil), prog[:start]...), prog[end:]...)
-				if c := with(cur, s); try(c) {
-					cur = c
-					removed = true
-				} else {
-					start = end
-				}
-			}
-			if !removed || chunk == 1 {
-				chunk /= 2
-			}
+	ddSwitches := func() {
+		if last(cur).Sched.Strat != 6 { // stratReplay
+			return
 		}
-	}
-	// 5. switch points
-	if last(cur).Sched.Strat == 6 { // stratReplay
-		chunk := len(last(cur).Sched.Replay) / 2
+		chunk := (len(last(cur).Sched.Replay) + 1) / 2
 		for chunk >= 1 && time.Now().Before(deadline) {
 			removed := false
 			for start := 0; start < len(last(cur).Sched.Replay); {
@@ -348,12 +328,99 @@ func minimise(b *Build, rf *ReplayFile, race bool, want map[string]bool, budget 
 					start = end
 				}
 			}
-			if !removed || chunk == 1 {
+			if chunk == 1 {
+				break
+			}
+			if !removed {
+				chunk /= 2
+			} else if chunk > len(last(cur).Sched.Replay) {
+				chunk = (len(last(cur).Sched.Replay) + 1) / 2
+				if chunk < 1 {
+					chunk = 1
+				}
+			}
+		}
+	}
+	// 4. switch points
+	ddSwitches()
+	// 5. operations: disable entries in place (ddmin per task)
+	enabled := func(p []Op) []int {
+		var ix []int
+		for i := range p {
+			if p[i].K != 0 {
+				ix = append(ix, i)
+			}
+		}
+		return ix
+	}
+	for t := 0; t < len(last(cur).Tasks); t++ {
+		chunk := (len(enabled(last(cur).Tasks[t])) + 1) / 2
+		for chunk >= 1 && time.Now().Before(deadline) {
+			removed := false
+			pos := 0
+			for {
+				ix := enabled(last(cur).Tasks[t])
+				if pos >= len(ix) {
+					break
+				}
+				end := pos + chunk
+				if end > len(ix) {
+					end = len(ix)
+				}
+				s := cloneSpec(last(cur))
+				for _, i := range ix[pos:end] {
+					s.Tasks[t][i] = Op{K: 0, A: -1, B: -1}
+				}
+				if c := with(cur, s); try(c) {
+					cur = c
+					removed = true
+				} else {
+					pos = end
+				}
+			}
+			if chunk == 1 {
+				break
+			}
+			if !removed {
 				chunk /= 2
 			}
 		}
 	}
-	// 6. objects that are no longer referenced
+	// 6. switch points again (fewer operations, fewer needed)
+	ddSwitches()
+	// 7. compaction: drop disabled entries and renumber switch points
+	{
+		s := cloneSpec(last(cur))
+		remap := make([]map[uint32]uint32, len(s.Tasks))
+		for t := range s.Tasks {
+			remap[t] = map[uint32]uint32{}
+			var np []Op
+			for i, op := range s.Tasks[t] {
+				if op.K != 0 {
+					remap[t][uint32(i)] = uint32(len(np))
+					np = append(np, op)
+				}
+			}
+			s.Tasks[t] = np
+		}
+		ok := true
+		for i := range s.Sched.Replay {
+			r := &s.Sched.Replay[i]
+			if int(r.T) < len(remap) {
+				if n, found := remap[r.T][r.Op]; found {
+					r.Op = n
+				} else if !r.Forced {
+					ok = false
+				}
+			}
+		}
+		if ok {
+			if c := with(cur, s); try(c) {
+				cur = c
+			}
+		}
+	}
+	// 8. objects that are no longer referenced
 	{
 		s := cloneSpec(last(cur))
 		used := map[int]bool{}
@@ -375,6 +442,7 @@ func minimise(b *Build, rf *ReplayFile, race bool, want map[string]bool, budget 
 			}
 		}
 	}
+	logf("minimise: %d candidate executions", tries)
 	out := *cur
 	out.Minimised = true
 	return &out
